@@ -441,6 +441,40 @@ def run_shard(args):
                         out["violations"].append({"kind": "managed-sibling-not-repaired", "detail": {"site": e[0], "event": e, "F": sorted(F), "new": new_src[:2500]}, "witness": wit, "finding": None})
             if len(out["samples"]) < 2 and F == frozenset(CATS):
                 out["samples"].append({"F": sorted(F), "old_args": old_args[:3], "observed": [s["obs"] for s in sites][:3], "new_args": new_args[:3]})
+    # ---- a snapshot that is evaluated again (with other runtime values behind its Is(...)) before it is compared
+    if args.shard < 4 or tier == "thorough":
+        rng = random.Random(f"{args.seed}/{PROP}/late-compare/{args.shard}")
+        a, b, k0, k1 = rng.sample(range(10, 99), 4)
+        lsrc = (
+            HEADER + f"U2 = [{a}, {b}]\n\n\ndef test_a():\n"
+            "    for r in range(2):\n        s = snapshot([Is(U2[r]), 'name', 1 + 1])\n        if r == 0:\n            continue\n        rec(0, lambda: [U2[r], 'name', 2] == s)\n"
+            f"    for r in range(2):\n        t = snapshot({{'v': Is(U2[r]), 'k': {k0}}})\n        if r == 0:\n            continue\n        rec(1, lambda: {{'v': U2[r], 'k': {k1}}} == t)\n"
+            f"    for r in range(2):\n        u = snapshot([Is(U2[r]), {k0}])\n        if r == 0:\n            continue\n        rec(2, lambda: U2[r] in u)\n"
+        )
+        for F in subsets_for(rng, tier):
+            res = inproc.run({"test_a.py": lsrc}, F)
+            C["runs"] += 1
+            if res.exec_exc or res.crashed():
+                C["crashed"] += 1
+                continue
+            new_src = res.files_after["test_a.py"].decode()
+            wit = {"files": {"test_a.py": lsrc}, "flags": sorted(F)}
+            old_args, _ = program.outer_snapshot_args(lsrc)
+            try:
+                new_args, _ = program.outer_snapshot_args(new_src)
+            except SyntaxError as e:
+                out["violations"].append({"kind": "unparsable", "detail": {"error": str(e), "F": sorted(F), "new": new_src[:1500]}, "witness": wit, "finding": None})
+                continue
+            for oa, na in zip(old_args, new_args):
+                out["evaluations"] += 1
+                C["unmanaged_checked"] += 1
+                C["late_compared_sites"] = C.get("late_compared_sites", 0) + 1
+                out["signatures"].add(f"is/late-compare/kept/{'+'.join(sorted(F)) or '-'}")
+                if collections.Counter(segments(oa)) != collections.Counter(segments(na)):
+                    out["violations"].append({"kind": "unmanaged-expression-not-kept-verbatim", "detail": {"F": sorted(F), "old_arg": oa, "new_arg": na, "case": "evaluated again before the first comparison"}, "witness": wit, "finding": None})
+            bad = [e for e in res.logs.get("test_a.py", []) if e[1] == "exc"]
+            if bad:
+                out["violations"].append({"kind": "comparison-raised", "detail": {"F": sorted(F), "events": bad[:3]}, "witness": wit, "finding": None})
     # ---- real sessions: snapshots created during collection (module level, parametrize arguments) and compared by a
     # later test; the fixture, the report and the per-category application of the plugin are in the loop
     from .. import session
